@@ -233,14 +233,14 @@ common::register! {
     q_pfb = pfb::<_, 40> => 2,
     q_fci_fir = fci_fir::<_, 24> => 2,
     q_fci_sli = fci_sli::<_, 24> => 2,
-    q_fci_rpsi = fci_rpsi::<_, 40> => 2,
+    q_fci_rpsi = fci_rpsi::<_, 300> => 2,
     q_fci_pli = fci_pli => 2,
     q_nack_step = nack_step::<_, 40> => 2,
     t_tfb = tfb::<_, 64> => 2,
     t_pfb = pfb::<_, 64> => 2,
     t_fci_fir = fci_fir::<_, 40> => 2,
     t_fci_sli = fci_sli::<_, 40> => 2,
-    t_fci_rpsi = fci_rpsi::<_, 256> => 2,
+    t_fci_rpsi = fci_rpsi::<_, 1100> => 2,
     t_nack_step = nack_step::<_, 1024> => 2,
     t_nack_word_public = nack_word_public => 2,
 }
